@@ -400,6 +400,51 @@ func (t *Translator) call(st *State, in *ssa.Call) {
 		t.builtin(st, in, b)
 		return
 	}
+	t.call1(st, in)
+	// ghost assertions attached to this call site
+	if t.parent == nil && t.spec != nil && len(t.spec.Asserts) > 0 {
+		if n := t.callOrdinal(in); n > 0 {
+			for _, cl := range t.spec.Asserts[n] {
+				var li *loopInfo
+				if ls := t.inLoops[in.Block()]; len(ls) > 0 {
+					li = ls[len(ls)-1]
+				}
+				env := t.invEnv(st, li)
+				if li == nil {
+					env.pre = nil
+				}
+				f, _ := env.Eval(cl.E)
+				t.oblige(st, fmt.Sprintf("assert.call%d", n), cl.Label, cl.Tags, f, t.w.pos(in.Pos()), cl.Src)
+			}
+		}
+	}
+}
+
+// callOrdinal: 1-based index of a call among the non-builtin calls of the function, in source order.
+func (t *Translator) callOrdinal(in *ssa.Call) int {
+	if t.callOrd == nil {
+		t.callOrd = map[*ssa.Call]int{}
+		var calls []*ssa.Call
+		for _, b := range t.fn.Blocks {
+			for _, i := range b.Instrs {
+				if c, ok := i.(*ssa.Call); ok {
+					if _, isB := c.Common().Value.(*ssa.Builtin); isB {
+						continue
+					}
+					calls = append(calls, c)
+				}
+			}
+		}
+		sort.SliceStable(calls, func(i, j int) bool { return calls[i].Pos() < calls[j].Pos() })
+		for i, c := range calls {
+			t.callOrd[c] = i + 1
+		}
+	}
+	return t.callOrd[in]
+}
+
+func (t *Translator) call1(st *State, in *ssa.Call) {
+	c := in.Common()
 	if c.IsInvoke() {
 		t.invoke(st, in)
 		return
